@@ -18,7 +18,7 @@ SPEC_FORMS = {"old", "forall", "exists", "implies", "result", "unfold", "iff", "
               "count", "raised", "fresh_const", "pw2", "cls_name", "str_contains", "dyn_float", "to_dyn", "let",
               "map_has", "seq_contains", "str_to_int", "int_to_str", "d_int", "d_float", "d_list", "d_chars", "d_is_int",
               "d_is_float", "d_is_list", "d_is_str", "d_is_dict", "d_is_none", "bitlen", "d_mk_list", "d_mk_str", "d_mk_float",
-              "d_mk_int", "d_mk_dict_empty", "d_set"}
+              "d_mk_int", "d_mk_dict_empty", "d_set", "size", "d_absent"}
 
 
 class EvalMixin:
@@ -56,6 +56,8 @@ class EvalMixin:
     def global_lookup(self, st, module, name, depth=0):
         if name in self.specs:
             return self.specs[name]
+        if "lemmas:" + name in self.contracts:
+            return Opaque("lemma:" + name)
         spec_mod = getattr(st.frame, "spec_module", None)
         for modname in ([module] if module else []) + ([spec_mod] if spec_mod else []):
             try:
@@ -405,7 +407,7 @@ class EvalMixin:
         cache[key] = res
         if not conds:
             i = z3.Const("mi!", Int)
-            body = z3.substitute(ev.e, (xb, it.e[i]))
+            body = z3.substitute(ev.e, (xb, smt.seq_nth(it.e, i)))
             st.axioms.append(z3.Length(r) == z3.Length(it.e))
             st.axioms.append(z3.ForAll([i], z3.Implies(z3.And(0 <= i, i < z3.Length(it.e)), r[i] == body), patterns=[r[i]]))
             st.ghost.setdefault("__mapdefs", []).append((r, it.e, xb, ev.e, None))
@@ -833,7 +835,7 @@ class EvalMixin:
         if isinstance(b, Z) and b.t.kind == "seq":
             a = st.fresh("arr", z3.ArraySort(Int, Int))
             j = z3.Const("aj!", Int)
-            st.axioms.append(z3.ForAll([j], z3.Implies(z3.And(0 <= j, j < z3.Length(b.e)), a[j] == b.e[j]), patterns=[a[j]]))
+            st.axioms.append(z3.ForAll([j], z3.Implies(z3.And(0 <= j, j < z3.Length(b.e)), a[j] == smt.seq_nth(b.e, j)), patterns=[a[j]]))
             return Arr(a, z3.Length(b.e))
         items = self.concrete_items(st, b)
         if items is not None:
